@@ -266,7 +266,11 @@ func (r *rwRT) ruleBranchCtx() {
 					c.ok("RW.BRANCHCTX", construct, pos, "decision "+got+" equals the Go spec's target rule")
 				} else {
 					nBad++
-					c.bad("RW.BRANCHCTX", construct, pos, fmt.Sprintf("the branch pass decides %q, the Go spec's target rule requires %q (contexts are the native statements left in the rewritten body; a function literal is a boundary)", got, want), trace...)
+					pre := ""
+					if got == "reject" {
+						pre = "over-rejection: "
+					}
+					c.bad("RW.BRANCHCTX", construct, pos, fmt.Sprintf(pre+"the branch pass decides %q, the Go spec's target rule requires %q (contexts are the native statements left in the rewritten body; a function literal is a boundary)", got, want), trace...)
 				}
 			}
 		}
